@@ -1681,6 +1681,8 @@ func (idx *MergeSetIndex) WriteDeleteTsids(tsids []uint64) error {
 	} else {
 		return errors.New("curDeleted must be *uint64set.Set")
 	}
+	// tag filter results cached before the drop still hold the dropped ids
+	invalidateTagCache()
 
 	return idx.tb.AddItems(items)
 }
